@@ -51,7 +51,9 @@ ASSUMPTIONS = [
     "are outside the claimed domain (DESIGN.md §4 C05 domain note); containers are only varied where the unchanged tree accepts "
     "them and is right (probed 2026-09: bitwise register - any bit order, frozen or not; table register, CALC singletons, "
     "CRC8, CRC9.calculate - big-endian bitarray / frozenbitarray; CRC16 / CRC32 / calculate_from_parts - bytes, bytearray, "
-    "memoryview); the expected value always comes from the bit sequence, never from the container",
+    "memoryview); the expected value always comes from the bit sequence, never from the container; a non-default container "
+    "that an entry point declines with a clean TypeError / AttributeError / ValueError / NotImplementedError is counted as "
+    "'not_accepted' and skipped (policy of vp/containers.py: which containers are accepted is not part of the property)",
     "reference = polynomial division over GF(2) (vp/refs/gf2.py) with generator polynomials, inversion rule, masks and "
     "octet-pair swap written from ETSI TS 102 361-1 annex B.3 (vp/refs/crc_ref.py), unit-checked against values captured "
     "from real radios",
@@ -199,6 +201,24 @@ BIT_REPS_TABLE = ["big", "frozen_big"]  # table register / singletons / CRC8 / C
 OCTET_REPS = ["bytes", "bytearray", "memoryview"]
 
 
+REJECTIONS = (TypeError, AttributeError, ValueError, NotImplementedError)  # same policy as vp/containers.py
+
+
+class NotAccepted(Exception):
+    """the library declined a non-default container with a clean TypeError / AttributeError / ValueError / NotImplementedError:
+    which containers an entry point accepts is not part of the property; once accepted the result must be right"""
+
+
+def ccall(rep, fn, *a):
+    """call(); for a non-default container a clean rejection is 'container not accepted' instead of a violation"""
+    if rep in (None, "big", "bytes"):
+        return call(fn, *a)[1]
+    st, res = call(fn, *a, allowed=REJECTIONS)
+    if st == "raised":
+        raise NotAccepted(f"{type(res).__name__}: {res}")
+    return res
+
+
 def make_bits(s, rep="big"):
     """the bit SEQUENCE s in the given container; the expected CRC is always computed from s, never from the container"""
     rep = rep or "big"
@@ -233,23 +253,26 @@ def oracle_engine(case):
     expected = crc_ref.rem(cfg, crc_ref.bits_of(s))
     for label, calc in calculators(cfg):
         rep = case.get("rep") if label == "bitwise" else table_rep(case.get("rep"))
-        if prev is not None:
-            call(calc.calculate_checksum, make_bits(prev, rep))
-        arg = make_bits(s, rep)
-        got = call(calc.calculate_checksum, arg)[1]
-        _same_bits(arg, s, label)
-        if not isinstance(got, bitarray) or len(got) != w:
-            raise Fail("checksum_is_w_bits", repr(got), f"bitarray of {w} bits", label)
-        if got.to01() != format(expected, f"0{w}b"):
-            raise Fail("engine_equals_polynomial_remainder", got.to01(), format(expected, f"0{w}b"), label)
-        ok = call(calc.verify_checksum, make_bits(s, rep), expected)[1]
-        if ok is not True:
-            raise Fail("verify_accepts_computed_value", ok, True, label)
-        wrongs = _neighbours(expected, w) if case.get("neighbours") else [expected ^ (1 << (len(s) % w))]
-        for wrong in wrongs:
-            ok = call(calc.verify_checksum, make_bits(s, rep), wrong)[1]
-            if ok is not False:
-                raise Fail("verify_rejects_other_value", {"value": hex(wrong), "result": ok}, {"value": hex(wrong), "result": False}, label)
+        try:
+            if prev is not None:
+                ccall(rep, calc.calculate_checksum, make_bits(prev, rep))
+            arg = make_bits(s, rep)
+            got = ccall(rep, calc.calculate_checksum, arg)
+            _same_bits(arg, s, label)
+            if not isinstance(got, bitarray) or len(got) != w:
+                raise Fail("checksum_is_w_bits", repr(got), f"bitarray of {w} bits", label)
+            if got.to01() != format(expected, f"0{w}b"):
+                raise Fail("engine_equals_polynomial_remainder", got.to01(), format(expected, f"0{w}b"), label)
+            ok = ccall(rep, calc.verify_checksum, make_bits(s, rep), expected)
+            if ok is not True:
+                raise Fail("verify_accepts_computed_value", ok, True, label)
+            wrongs = _neighbours(expected, w) if case.get("neighbours") else [expected ^ (1 << (len(s) % w))]
+            for wrong in wrongs:
+                ok = ccall(rep, calc.verify_checksum, make_bits(s, rep), wrong)
+                if ok is not False:
+                    raise Fail("verify_rejects_other_value", {"value": hex(wrong), "result": ok}, {"value": hex(wrong), "result": False}, label)
+        except NotAccepted:
+            case["_container_not_accepted"] = True
 
 
 def oracle_linearity(case):
@@ -271,35 +294,35 @@ def _fe_call(fe, msg):
         from okdmr.dmrlib.etsi.crc.crc8 import CRC8
 
         arg = make_bits(msg["bits"], msg.get("rep"))
-        v = call(CRC8.calculate, arg)[1]
+        v = ccall(msg.get("rep"), CRC8.calculate, arg)
         _same_bits(arg, msg["bits"], fe)
         return v
     if fe == "crc9":
         from okdmr.dmrlib.etsi.crc.crc9 import CRC9
 
         arg = make_bits(msg["bits"], msg.get("rep"))
-        v = call(CRC9.calculate, arg, lib_mask(msg["mask"]))[1]
+        v = ccall(msg.get("rep"), CRC9.calculate, arg, lib_mask(msg["mask"]))
         _same_bits(arg, msg["bits"], fe)
         return v
     if fe == "crc9_parts":
         from okdmr.dmrlib.etsi.crc.crc9 import CRC9
 
         arg = make_octets(msg["data"], msg.get("rep"))
-        v = call(CRC9.calculate_from_parts, arg, msg["sn"], lib_mask(msg["mask"]), _crc32_arg(msg))[1]
+        v = ccall(msg.get("rep"), CRC9.calculate_from_parts, arg, msg["sn"], lib_mask(msg["mask"]), _crc32_arg(msg))
         _same_octets(arg, msg["data"], fe)
         return v
     if fe == "crc16":
         from okdmr.dmrlib.etsi.crc.crc16 import CRC16
 
         arg = make_octets(msg["data"], msg.get("rep"))
-        v = call(CRC16.calculate, arg, lib_mask(msg["mask"]))[1]
+        v = ccall(msg.get("rep"), CRC16.calculate, arg, lib_mask(msg["mask"]))
         _same_octets(arg, msg["data"], fe)
         return v
     if fe == "crc32":
         from okdmr.dmrlib.etsi.crc.crc32 import CRC32
 
         arg = make_octets(msg["data"], msg.get("rep"))
-        v = call(CRC32.calculate, arg)[1]
+        v = ccall(msg.get("rep"), CRC32.calculate, arg)
         _same_octets(arg, msg["data"], fe)
         return v
     raise HarnessError(f"unknown front end {fe}")
@@ -325,21 +348,21 @@ def _fe_check(fe, msg, value):
     if fe == "crc8":
         from okdmr.dmrlib.etsi.crc.crc8 import CRC8
 
-        return call(CRC8.check, make_bits(msg["bits"], msg.get("rep")), value)[1]
+        return ccall(msg.get("rep"), CRC8.check, make_bits(msg["bits"], msg.get("rep")), value)
     if fe in ("crc9", "crc9_parts"):
         from okdmr.dmrlib.etsi.crc.crc9 import CRC9
 
         if fe == "crc9":
             return None  # CRC9.check exists for the parts form only
-        return call(CRC9.check, make_octets(msg["data"], msg.get("rep")), msg["sn"], value, lib_mask(msg["mask"]), _crc32_arg(msg))[1]
+        return ccall(msg.get("rep"), CRC9.check, make_octets(msg["data"], msg.get("rep")), msg["sn"], value, lib_mask(msg["mask"]), _crc32_arg(msg))
     if fe == "crc16":
         from okdmr.dmrlib.etsi.crc.crc16 import CRC16
 
-        return call(CRC16.check, make_octets(msg["data"], msg.get("rep")), value, lib_mask(msg["mask"]))[1]
+        return ccall(msg.get("rep"), CRC16.check, make_octets(msg["data"], msg.get("rep")), value, lib_mask(msg["mask"]))
     if fe == "crc32":
         from okdmr.dmrlib.etsi.crc.crc32 import CRC32
 
-        return call(CRC32.check, make_octets(msg["data"], msg.get("rep")), value)[1]
+        return ccall(msg.get("rep"), CRC32.check, make_octets(msg["data"], msg.get("rep")), value)
     raise HarnessError(f"unknown front end {fe}")
 
 
@@ -406,7 +429,7 @@ def _reference_applies(fe, msg):
     return not (fe == "crc32" and len(bytes.fromhex(msg["data"])) % 2 == 1)
 
 
-def oracle_front(case):
+def _oracle_front(case):
     """case = {fe, msg, prev: msg|None, values: 'neighbours'|'all'}: value equals the reference; check() accepts exactly it."""
     fe, msg = case["fe"], case["msg"]
     w = FE_WIDTH[fe]
@@ -446,6 +469,14 @@ def oracle_front(case):
             raise Fail("check_rejects_every_other_value", {"value": hex(v), "result": ok}, {"value": hex(v), "result": False}, fe)
 
 
+def oracle_front(case):
+    """see _oracle_front; a non-default container that the front end declines cleanly is outside the domain"""
+    try:
+        _oracle_front(case)
+    except NotAccepted:
+        case["_container_not_accepted"] = True
+
+
 def oracle_captured(case):
     """case = {fe, msg, captured}: values captured from real radios (repository test vectors): reference and library agree with them."""
     fe, msg = case["fe"], case["msg"]
@@ -483,7 +514,7 @@ def oracle_extreme(case):
 # ---------------------------------------------------------------------------------------------- streaming interface (lesson A.5)
 
 
-def oracle_streaming(case):
+def _oracle_streaming(case):
     """case = {cfg, mode: bitwise|table, rounds: [[chunk, …], …], rep}: the documented register workflow init(); update() 1..n
     times; digest() on ONE register object, once per round.  After every update() the returned register is the remainder
     of all bits fed so far in this round, digest() is the remainder of the concatenation (= what the one-shot calculator
@@ -499,7 +530,7 @@ def oracle_streaming(case):
         sofar = ""
         for k, ch in enumerate(chunks):
             arg = make_bits(ch, rep)
-            ret = call(reg.update, arg)[1]
+            ret = ccall(rep, reg.update, arg)
             _same_bits(arg, ch, mode)
             sofar += ch
             exp = format(crc_ref.rem(cfg, crc_ref.bits_of(sofar)), f"0{w}b")
@@ -512,9 +543,17 @@ def oracle_streaming(case):
             if not isinstance(dig, bitarray) or dig.to01() != exp:
                 raise Fail("streamed_digest_equals_polynomial_remainder", {"round": rnd, "digest_call": again, "digest": dig.to01() if isinstance(dig, bitarray) else repr(dig)},
                            {"round": rnd, "digest_call": again, "digest": exp}, mode)
-        one_shot = call(call(m.BitCrcCalculator, lib_cfg(cfg), table_based=(mode == "table"))[1].calculate_checksum, make_bits(sofar, rep))[1]
+        one_shot = ccall(rep, call(m.BitCrcCalculator, lib_cfg(cfg), table_based=(mode == "table"))[1].calculate_checksum, make_bits(sofar, rep))
         if one_shot.to01() != exp:
             raise Fail("engine_equals_polynomial_remainder", one_shot.to01(), exp, mode)
+
+
+def oracle_streaming(case):
+    """see _oracle_streaming; a non-default container that update() declines cleanly is outside the domain"""
+    try:
+        _oracle_streaming(case)
+    except NotAccepted:
+        case["_container_not_accepted"] = True
 
 
 # ---------------------------------------------------------------------------------------------- histories
@@ -685,7 +724,7 @@ def drv_engine_lengths(ctx: Ctx, sub: SubCheck):
                 case = {"cfg": cfg, "bits": s, "prev": prev, "rep": BIT_REPS_ANY[(i + L // 6) % 4]}
                 ctx.run_case(sub.name, oracle_engine, case, t)
                 t.case(sub.name, nontrivial=_nt_bits(cfg, s), cls=f"{cfg}:{_cls_len(cfg, L)}")
-                t.cls(sub.name, "container:" + case["rep"])
+                t.cls(sub.name, "container:" + case["rep"] + (":not_accepted_somewhere" if case.get("_container_not_accepted") else ""))
             if L % 97 == 5:
                 t.sample(sub.name, case)
 
@@ -866,7 +905,7 @@ def make_front_driver(fe, nq, nt):
         reps = BIT_REPS_TABLE if fe in ("crc8", "crc9") else OCTET_REPS
         mr = st.builds(lambda a, r: dict(a, rep=r), m, st.sampled_from(reps))
         strat = st.builds(lambda a, p: {"fe": fe, "msg": a, "prev": _related_msg(fe, a, p) if isinstance(p, int) else p}, mr, st.one_of(st.none(), mr, st.integers(2, 5)))
-        _hyp(ctx, sub, strat, oracle_front, nq, nt, lambda c, t: (t.case(sub.name, key=c, nontrivial=_front_nt(fe, c["msg"]), cls=_front_cls(fe, c["msg"])), t.cls(sub.name, "container:" + c["msg"].get("rep", "default"))))
+        _hyp(ctx, sub, strat, oracle_front, nq, nt, lambda c, t: (t.case(sub.name, key=c, nontrivial=_front_nt(fe, c["msg"]), cls=_front_cls(fe, c["msg"])), t.cls(sub.name, "container:" + c["msg"].get("rep", "default") + (":not_accepted" if c.get("_container_not_accepted") else ""))))
 
     return drv
 
@@ -1243,7 +1282,7 @@ def drv_streaming(ctx: Ctx, sub: SubCheck):
         t.case(sub.name, key=c, nontrivial=sum(1 for r in c["rounds"] for ch in r if ch) >= 2, cls=f"{c['cfg']}:{c['mode']}")
         for x in cl:
             t.cls(sub.name, x)
-        t.cls(sub.name, "container:" + c["rep"])
+        t.cls(sub.name, "container:" + c["rep"] + (":not_accepted" if c.get("_container_not_accepted") else ""))
 
     _hyp(ctx, sub, st_stream(), oracle_streaming, 60, 1200, rec)
     # directed: a loaded register, then a chunk of z zeros (z = 0 .. 3 feeds + 1) and a closing 1; an empty chunk in between
